@@ -40,7 +40,13 @@ type Config struct {
 	Features      []string          `json:"features"`      // enabled workload / fault kinds
 	Participation int               `json:"participation"` // percent of committee members that attest
 	SkipPct       int               `json:"skip_pct"`      // percent of slots without a block
+	// StartEpoch: the run starts from a state whose slot is already StartEpoch*SPE (an old chain:
+	// epoch numbers beyond one and two bytes, all history vectors wrapped many times, a finality gap
+	// of hundreds of epochs). Fork epochs are absolute.
+	StartEpoch uint64 `json:"start_epoch,omitempty"`
 }
+
+func (c *Config) baseSlot() uint64 { return c.StartEpoch * c.SPE }
 
 func (c *Config) has(f string) bool {
 	for _, x := range c.Features {
@@ -205,6 +211,14 @@ func GenConfig(seed uint64, opt core.Options) *Config {
 		for _, f := range []string{"exits", "deposits", "low_balances"} {
 			if !has[f] {
 				c.Features = append(c.Features, f)
+			}
+		}
+	}
+	if opt.Params["preset"] != "mainnet" && rng.Chance(1, 8) {
+		c.StartEpoch = []uint64{257, 300, 65537}[rng.Intn(3)]
+		for i := range c.ForkEpochs {
+			if c.ForkEpochs[i] != farFuture {
+				c.ForkEpochs[i] += c.StartEpoch
 			}
 		}
 	}
@@ -435,6 +449,15 @@ func NewWorld(cfg *Config, res *core.Result) (*World, error) {
 	if err != nil {
 		return nil, fmt.Errorf("genesis: %v", err)
 	}
+	if cfg.StartEpoch > 0 {
+		// an old chain: the same registry, many epochs later (no history: all roots of the past are zero)
+		if err := st.SetSlot(common.Slot(cfg.baseSlot())); err != nil {
+			return nil, err
+		}
+		if epc, err = common.NewEpochsContext(w.spec, st); err != nil {
+			return nil, fmt.Errorf("context of the late start: %v", err)
+		}
+	}
 	// the deposit tree behind the genesis state
 	for i := range vals {
 		dd := common.DepositData{Pubkey: vals[i].Pubkey, WithdrawalCredentials: vals[i].WithdrawalCredentials, Amount: vals[i].Balance}
@@ -451,7 +474,7 @@ func NewWorld(cfg *Config, res *core.Result) (*World, error) {
 	hdr, _ := box.st.LatestBlockHeader()
 	hdr.StateRoot = box.st.HashTreeRoot(tree.GetHashFn())
 	groot := hdr.HashTreeRoot(tree.GetHashFn())
-	g := &blockRec{root: groot, slot: 0, post: box}
+	g := &blockRec{root: groot, slot: cfg.baseSlot(), post: box}
 	g.postSSZ = serializeState(box.st)
 	w.blocks[groot] = g
 	w.genesis, w.head = g, g
